@@ -116,6 +116,24 @@ func showBookingChange(c *traits.PullBookingsResponse_Change) string {
 // run drives the case through the real server and evaluates the property; it returns a trace of what
 // was observed at every step (for the replay file of a violation).
 func (c bookingCase) run(m sink) (trace []string) {
+	o := c.runObs(m)
+	return o.Trace
+}
+
+// bookingObs is what one run observed: the diagnostic trace, and - for the tie with the Lean model - the
+// writes as executed (fences included, as `ups:<id>:<period>`), the seed (first drain without its fence)
+// and ListBookings after every fence.
+type bookingObs struct {
+	Trace    []string
+	Executed []string
+	Seed     string
+	Lists    []string
+	Complete bool
+}
+
+func (c bookingCase) runObs(m sink) (o bookingObs) {
+	trace := []string{}
+	defer func() { o.Trace = trace }()
 	model := bookingpb.NewModel()
 	server := bookingpb.NewModelServer(model)
 	client := bookingpb.WrapApi(server)
@@ -125,6 +143,7 @@ func (c bookingCase) run(m sink) (trace []string) {
 	set := func(op string) error {
 		q := strings.Split(op, ":")
 		id, per := q[1], q[2]
+		o.Executed = append(o.Executed, "ups:"+id+":"+per)
 		if _, ok := shadowP[id]; ok {
 			_, err := client.UpdateBooking(ctx, &traits.UpdateBookingRequest{Booking: &traits.Booking{Id: id, Booked: parseP(per)}})
 			shadowP[id] = per
@@ -290,6 +309,11 @@ func (c bookingCase) run(m sink) (trace []string) {
 			parts = append(parts, b.Id+"="+showP(b.Booked))
 		}
 		trace = append(trace, fmt.Sprintf("after %s: ListBookings %s", step, strings.Join(parts, ",")))
+		if len(parts) == 0 {
+			o.Lists = append(o.Lists, "-")
+		} else {
+			o.Lists = append(o.Lists, strings.Join(parts, ","))
+		}
 		if l := strings.Join(parts, ","); l != want {
 			m.Violate("C08/booking/ListBookings/not-filtered-collection", "ListBookings(booking_intersects) is not the intersecting bookings", c, want+" after "+step, l)
 			return false
@@ -305,6 +329,20 @@ func (c bookingCase) run(m sink) (trace []string) {
 		trace = append(trace, "seed fence lost: "+showChanges(evs))
 		m.Violate("C08/booking/PullBookings/fence-lost", "a newly created intersecting booking was not delivered within 5s", c, "ADD", showChanges(evs))
 		return
+	}
+	{
+		// the seed as the subscriber was sent it: everything before the first fence's ADD
+		var items []string
+		for _, ev := range evs[:len(evs)-1] {
+			if f := splitComma(ev); len(f) == 7 {
+				items = append(items, f[0]+"="+f[4])
+			}
+		}
+		sort.Strings(items)
+		o.Seed = "-"
+		if len(items) > 0 {
+			o.Seed = strings.Join(items, ",")
+		}
 	}
 	if !foldAndCheck(evs, "seed") {
 		return
@@ -325,12 +363,80 @@ func (c bookingCase) run(m sink) (trace []string) {
 		}
 	}
 	m.Eval(c.Query+"/"+strings.Join(c.Ops, " "), true, nil)
+	o.Complete = true
 	return
 }
 
+// tieRecord compares what the run observed with the Lean model of the same writes under the booking
+// server's include option (`bpull`): the seed and ListBookings after every fence.
+func (c bookingCase) tieRecord(tie *lib.Tie, drv *lib.Driver, o bookingObs) {
+	if !o.Complete || drv == nil {
+		return
+	}
+	line := strings.Join(append([]string{"bpull", c.Query, fmt.Sprint(c.NBefore)}, o.Executed...), " ")
+	ans, err := drv.Ask(line)
+	if err != nil {
+		tie.Fail(err)
+		return
+	}
+	toks := strings.Split(ans, " ")
+	modelParts := []string{}
+	if len(toks) == len(o.Executed)-c.NBefore+1 && strings.HasPrefix(toks[0], "seed=") {
+		var items []string
+		if sv := strings.TrimPrefix(toks[0], "seed="); sv != "-" {
+			for _, ev := range strings.Split(sv, ";") {
+				if f := splitComma(ev); len(f) == 7 {
+					items = append(items, f[0]+"="+f[4])
+				}
+			}
+		}
+		sort.Strings(items)
+		seed := "-"
+		if len(items) > 0 {
+			seed = strings.Join(items, ",")
+		}
+		modelParts = append(modelParts, "seed="+seed)
+		for i, op := range o.Executed[c.NBefore:] {
+			if strings.HasPrefix(op, "ups:~") {
+				t := toks[1+i]
+				modelParts = append(modelParts, t[strings.LastIndex(t, "@")+1:])
+			}
+		}
+	} else {
+		modelParts = append(modelParts, ans)
+	}
+	code := append([]string{"seed=" + o.Seed}, o.Lists...)
+	tie.Record(c.Query+"/"+strings.Join(c.Ops, " "), c.Query != "absent", c, strings.Join(modelParts, " "), strings.Join(code, " "))
+	tie.Count("query " + queryShape(c.Query))
+}
+
+func queryShape(q string) string {
+	switch {
+	case q == "absent":
+		return "absent"
+	case q == "-/-":
+		return "unbounded"
+	case strings.HasPrefix(q, "-/"):
+		return "end-only"
+	case strings.HasSuffix(q, "/-"):
+		return "start-only"
+	}
+	return "both"
+}
+
 // runConfirmed evaluates the case, re-running it on a fresh server before a violation is reported.
-func (c bookingCase) runConfirmed(res *lib.Result, m sink) {
-	confirmed(res, m, func(s sink) any { return c.run(s) }, func(t1, t2 any) any { return enrich(c, t1, t2) })
+func (c bookingCase) runConfirmed(res *lib.Result, m sink, tie *lib.Tie, drv *lib.Driver) {
+	var first bookingObs
+	runs := 0
+	confirmed(res, m, func(s sink) any {
+		o := c.runObs(s)
+		if runs == 0 {
+			first = o
+		}
+		runs++
+		return o.Trace
+	}, func(t1, t2 any) any { return enrich(c, t1, t2) })
+	c.tieRecord(tie, drv, first)
 }
 
 // genPeriod draws a period shape: no period at all (only when allowNil), unbounded `{}`, start-only,
@@ -360,7 +466,9 @@ func genPeriod(r *rand.Rand, none string) string {
 var queryShapes = []string{"absent", "-/-", "3/-", "-/6", "3/6"}
 var bookingShapes = []string{"nil", "4/-", "-/4", "4/5", "6/8", "1/3", "5/8", "7/9", "-/-", "nil", "2/7"}
 
-func runBooking(f lib.Flags, res *lib.Result) {
+func runBooking(f lib.Flags, res *lib.Result, drv *lib.Driver) {
+	tie := res.Tie("booking-server", "K1",
+		"the same cases through the Lean model of the booking server's include option (bookingInclude: no request period = no filter; else PeriodsIntersect(booked, request), false for a missing booked period) composed with the collection model: the seed PullBookings delivers and ListBookings(booking_intersects=q) after every write are compared with the model's `bpull` answer; non-trivial = request period present; distinct = (query, history)")
 	mon := res.Monitor("booking-period-predicate", "real bookingpb.ModelServer through its wrapper client: every request shape (booking_intersects absent, {}, start-only, end-only, both) x a booking walked through every booking shape (no booked period, start-only, end-only, inside, touching, overlapping, disjoint, unbounded), plus random create/update histories of 2-3 bookings with such periods over seconds 0..8, PullBookings/ListBookings(booking_intersects=q): after each write (fenced by creating a fresh intersecting booking) fold(stream) = ListBookings = bookings intersecting q by an integer-interval oracle; every event well formed at the view; distinct = (query, history)")
 	_ = resource.WithInclude
 	r := lib.NewRand(f.Seed + 7)
@@ -375,7 +483,7 @@ func runBooking(f lib.Flags, res *lib.Result) {
 					c.Ops = append(c.Ops, "set:b:"+bookingShapes[(k+5)%len(bookingShapes)])
 				}
 			}
-			c.runConfirmed(res, mon)
+			c.runConfirmed(res, mon, tie, drv)
 			mon.Count("query " + q)
 		}
 	}
@@ -385,6 +493,6 @@ func runBooking(f lib.Flags, res *lib.Result) {
 		for j := 0; j < k; j++ {
 			c.Ops = append(c.Ops, "set:"+ids[r.Intn(len(ids))]+":"+genPeriod(r, "nil"))
 		}
-		c.runConfirmed(res, mon)
+		c.runConfirmed(res, mon, tie, drv)
 	}
 }
